@@ -1,4 +1,4 @@
 INIT Init
 NEXT Next
-INVARIANTS TypeOK ReturnStops ScopeBalanced NoDuplicateAtDepth HandlerShape Emit
+INVARIANTS TypeOK ReturnStops ScopeBalanced NoDuplicateAtDepth HandlerShape FreshOnBind Emit
 CHECK_DEADLOCK FALSE
